@@ -151,42 +151,67 @@ def c06_monitor(case, frames):
 
 # ------------------------------------------------------------------ C17
 def c17_monitor(case, frames):
-    after = {}
+    """a bar queued after another: parked (in no frame) until the frame in which flush sees the predecessor's second
+    terminal frame (the predecessor's release), in the next cycle with the priority the predecessor had then; a bar
+    queued after a predecessor that is already released is in the first cycle that begins after its Add, with that
+    priority; a predecessor that hands over to parked bars is not drawn again"""
+    after, add_seq = {}, {}
     for seq, k, a in events(case):
-        if k == "CT_ADD" and a[1] != "after=-1":
-            after[bar(a[0])] = int(a[1][6:])
+        if k == "CT_ADD":
+            add_seq[bar(a[0])] = seq
+            if a[1] != "after=-1":
+                after[bar(a[0])] = int(a[1][6:])
     if not after:
         return None
     cyc = cycles(case)
-    shown = {}
-    for ci, c in enumerate(cyc):
-        if c["out"] is None:
-            continue
-        ids = [int(i[1]) for i in c["out"][1] if i[0] == "r"]
-        for s, a in after.items():
-            if s in ids and a in ids:
-                return ("queued bar %d is displayed together with its predecessor %d (event %d)" % (s, a, c["outseq"]), "successor-with-predecessor")
-            if s in ids and s not in shown:
-                shown[s] = ci
-    # the successor is shown in the cycle right after the predecessor's last frame, with its priority
+    # release of a bar: the first error-free flush of its frame with shutdown = 1
+    rel = {}     # bar -> (cycle index, seq of the flush event, priority it was popped with in that cycle)
+    evs = events(case)
+    flush_seq = {}
+    ci = -1
+    for seq, k, a in evs:
+        if k == "CT_RENDERBEGIN":
+            ci += 1
+        elif k == "CT_FLUSHBAR" and ci >= 0 and int(a[1]) == 1 and (len(a) < 6 or a[5] == "0"):
+            b0 = bar(a[0])
+            if b0 not in rel:
+                pr = [p for (b, p) in cyc[ci]["pops"] if b == b0]
+                rel[b0] = (ci, seq, pr[-1] if pr else None)
+    refixed = set(bar(a[0]) for _, k, a in evs if k == "HM_REQ" and len(a) >= 2 and a[0].startswith("b") and a[1] == "3")
     for s, a in after.items():
-        last_a = None
-        prio_a = None
-        for ci, c in enumerate(cyc):
-            for (b, p) in c["pops"]:
-                if b == a:
-                    last_a, prio_a = ci, p
-        if last_a is None:
+        shown = [ci for ci, c in enumerate(cyc) if c["out"] is not None and s in [int(i[1]) for i in c["out"][1] if i[0] == "r"]]
+        popped_in = [ci for ci, c in enumerate(cyc) if any(b == s for (b, p) in c["pops"])]
+        if a not in rel:
+            # the predecessor never handed over: the bar stays parked
+            if shown:
+                return ("queued bar %d is displayed (cycle %d) although its predecessor %d has not shown its final state twice yet"
+                        % (s, shown[0], a), "successor-with-predecessor")
             continue
-        took = any(b == a and sh == 1 for (b, sh, n, rm, np) in cyc[last_a]["flushed"])
-        if took and last_a + 1 < len(cyc) and cyc[last_a + 1]["frame"] is not None:
-            nxt = cyc[last_a + 1]
-            ps = [p for (b, p) in nxt["pops"] if b == s]
+        rci, rseq, rprio = rel[a]
+        early = add_seq[s] < rseq
+        if early:
+            if shown and shown[0] <= rci:
+                return ("queued bar %d is displayed in cycle %d, its predecessor %d hands over in cycle %d (event %d)"
+                        % (s, shown[0], a, rci, rseq), "successor-with-predecessor")
+            # the predecessor is not drawn after it handed over to a parked bar
+            later = [ci for ci, c in enumerate(cyc) if ci > rci and any(b == a for (b, p) in c["pops"])]
+            if later:
+                return ("bar %d is drawn again in cycle %d after it handed over to the bar(s) queued after it in cycle %d"
+                        % (a, later[0], rci), "predecessor-drawn-after-handover")
+            first = rci + 1
+        else:
+            # created after the hand-over: in the first cycle that begins after the Add
+            first = next((ci for ci, c in enumerate(cyc) if c["begin"] > add_seq[s]), None)
+            if first is None:
+                continue
+        if first < len(cyc) and cyc[first]["frame"] is not None:
+            ps = [p for (b, p) in cyc[first]["pops"] if b == s]
             if not ps:
-                return ("queued bar %d is not in the cycle that follows its predecessor %d's last frame" % (s, a), "successor-not-promoted")
-            refixed = any(k == "HM_REQ" and len(a) >= 2 and a[0] == "b%d" % s and a[1] == "3" for _, k, a in events(case))
-            if ps[0] != prio_a and not refixed:
-                return ("queued bar %d has priority %d, predecessor %d had %d" % (s, ps[0], a, prio_a), "successor-priority")
+                return ("queued bar %d is not in cycle %d, the first one after %s" %
+                        (s, first, "its predecessor %d's hand-over" % a if early else "it was created behind the finished bar %d" % a),
+                        "successor-not-promoted")
+            if rprio is not None and ps[0] != rprio and s not in refixed:
+                return ("queued bar %d has priority %d, predecessor %d had %d when it handed over" % (s, ps[0], a, rprio), "successor-priority")
     return None
 
 
@@ -420,10 +445,16 @@ def c03_monitor(case, frames):
             return ("bar %d was aborted but the last frame shows %s" % (b, ":".join(i)), sig)
     # bars that were dropped (flushed with shutdown 1 and rm, no successor) must be absent
     gone = set()
+    # succ_of: bars that hand over to a bar parked behind them (queued before the flush of their second terminal frame);
+    # a bar queued after that is pushed at once and the predecessor stays as any finished bar does
     succ_of = {}
+    handed = set()
     for seq, k, a in evs:
         if k == "CT_ADD" and a[1] != "after=-1":
-            succ_of[int(a[1][6:])] = bar(a[0])
+            if int(a[1][6:]) not in handed:
+                succ_of[int(a[1][6:])] = bar(a[0])
+        elif k == "CT_FLUSHBAR" and int(a[1]) == 1 and (len(a) < 6 or a[5] == "0"):
+            handed.add(bar(a[0]))
     for c in cyc:
         for (b, sh, n, rm, np) in c["flushed"]:
             if sh == 1 and (rm or b in succ_of) and not (case["cfg"][5] == "1" and not np and b not in succ_of):
